@@ -1174,7 +1174,7 @@ class CSSMatch(_DocumentNav):
                         break
                     if name in ('input', 'button'):
                         v = self.get_attribute_by_name(child, 'type', '')
-                        if v and util.lower(v) == 'submit':
+                        if v and (v if self.is_xml else util.lower(v)) == 'submit':
                             self.cached_default_forms.append((form, child))
                             if el is child:
                                 match = True
@@ -1229,11 +1229,14 @@ class CSSMatch(_DocumentNav):
                         check = False
                         has_name = False
                         for k, v in self.iter_attributes(child):
-                            if util.lower(k) == 'type' and util.lower(v) == 'radio':
+                            # Names and the type keyword are compared as the selectors compare them
+                            if not self.is_xml:
+                                k = util.lower(k)
+                            if k == 'type' and (v if self.is_xml else util.lower(v)) == 'radio':
                                 is_radio = True
-                            elif util.lower(k) == 'name' and v == name:
+                            elif k == 'name' and v == name:
                                 has_name = True
-                            elif util.lower(k) == 'checked':
+                            elif k == 'checked':
                                 check = True
                             if is_radio and check and has_name and get_parent_form(child) is form:
                                 checked = True
